@@ -187,6 +187,9 @@ func c08worker(c *hx.Ctx) int {
 			case `1`, `"1"`, `true`, `"true"`, `{"a":1}`, `{"a":"1"}`:
 				alpha = append(alpha, v)
 			}
+			if strings.HasPrefix(v, "json:[") && strings.Contains(d.Def, "uniqueItems") {
+				alpha = append(alpha, v) // mixed lists for the validators that look for duplicates
+			}
 		}
 		if len(alpha) == 0 {
 			continue
